@@ -97,6 +97,33 @@ func (ex *Exec) specBool(sc *specCtx, c *Clause) *T {
 	return v.T
 }
 
+// specTry evaluates a clause; when the clause names something that no longer exists in the code (a local variable, a
+// field, a builder) it returns ok=false instead of recording an engine error: the caller turns an obligation-bearing
+// clause into a failed obligation ("not evaluable") and drops a clause that would only have been assumed.
+func (ex *Exec) specTry(sc *specCtx, c *Clause) (*T, bool) {
+	nerr := len(ex.errs)
+	g := ex.specBool(sc, c)
+	if len(ex.errs) == nerr {
+		return g, true
+	}
+	var kept []string
+	drift := false
+	for _, e := range ex.errs[nerr:] {
+		if strings.Contains(e, "unknown identifier") || strings.Contains(e, "no field ") || strings.Contains(e, "has no value") ||
+			strings.Contains(e, "not a known builder") || strings.Contains(e, "not available") || strings.Contains(e, "index of non-slice") || strings.Contains(e, "of non-struct") {
+			drift = true
+			ex.warnings["contract clause not evaluable on this code: "+e] = true
+			continue
+		}
+		kept = append(kept, e)
+	}
+	ex.errs = append(ex.errs[:nerr], kept...)
+	if drift && len(kept) == 0 {
+		return False, false
+	}
+	return g, len(kept) == 0
+}
+
 func (ex *Exec) specErr(sc *specCtx, format string, args ...any) {
 	if r := sc.root(); r.lenient && r.missing {
 		return // the clause is already known not to apply at this exit
